@@ -168,6 +168,29 @@ pub fn gen_multi_answer(r: &mut Rng) -> (MProgram, Vec<(MGoal, Vec<usize>)>) {
         p.impls.push(MImpl { nvars: 1, head: MPred::new("T2", vec![MTy::app("Vec", vec![MTy::Var(0)]), MTy::Var(0)]), positive: true, ..Default::default() });
         p.impls.push(MImpl { head: MPred::new("T2", vec![MTy::app("Vec", vec![leaf(r)]), leaf(r)]), positive: true, ..Default::default() });
     }
+    // a strand that flounders (auto trait on an unknown) and a definite strand that only answers after a few failed
+    // attempts: the order in which the solver sees "definite", "ambiguous" and "late definite" strands varies
+    if r.chance(50) {
+        p.traits.push(MTrait { name: "Au".into(), auto: true, ..Default::default() });
+        p.traits.push(MTrait { name: "T3".into(), ..Default::default() });
+        p.traits.push(MTrait { name: "Nv".into(), ..Default::default() });
+        let odd = if outer == "Vec" { "Bx" } else { "Vec" };
+        let amb = MImpl { nvars: 1, head: MPred::new("T0", vec![MTy::app(odd, vec![MTy::Var(0)])]), wheres: vec![MPred::new("Au", vec![MTy::Var(0)])], positive: true, ..Default::default() };
+        let late = MImpl { nvars: 1, head: MPred::new("T0", vec![MTy::app(outer, vec![MTy::app("Pair", vec![MTy::Var(0), MTy::Var(0)])])]), wheres: vec![MPred::new("T3", vec![MTy::Var(0)])], positive: true, ..Default::default() };
+        // drop impls that overlap with the two templates
+        p.impls.retain(|im| !(im.head.tr == "T0" && (im.head.args[0].head() == Some(odd) || matches!(&im.head.args[0], MTy::App(_, a) if a.first().and_then(|x| x.head()) == Some("Pair")))));
+        let pos = r.below(p.impls.len() + 1);
+        p.impls.insert(pos.min(p.impls.len()), amb);
+        if r.chance(80) {
+            p.impls.push(late);
+            let d = r.below(5);
+            let names = ["A", "B", "C", "D"];
+            for i in 0..d.min(3) {
+                p.impls.push(MImpl { head: MPred::new("T3", vec![MTy::nullary(names[i])]), wheres: vec![MPred::new("Nv", vec![MTy::nullary(names[i])])], positive: true, ..Default::default() });
+            }
+            p.impls.push(MImpl { head: MPred::new("T3", vec![MTy::nullary(names[d.min(3)])]), positive: true, ..Default::default() });
+        }
+    }
     let v = |i: usize| MTy::Var(i);
     let pool: Vec<(MGoal, Vec<usize>)> = vec![
         (MGoal::Exists(vec![0], 0, Box::new(MGoal::Pred(MPred::new("T0", vec![v(0)])))), vec![0]),
@@ -264,10 +287,25 @@ pub fn gen_propositional_goals(r: &mut Rng, p: &MProgram, n: usize, allow_not: b
             1 => MGoal::And(vec![atom(r), atom(r)]),
             2 => MGoal::And(vec![atom(r), atom(r), atom(r)]),
             _ => {
-                if allow_not && r.chance(50) {
-                    MGoal::And(vec![atom(r), MGoal::Not(Box::new(atom(r)))])
-                } else {
-                    atom(r)
+                let hyp = |r: &mut Rng| MPred::new(&r.pick(&p.traits).name, vec![s.clone()]);
+                match r.below(4) {
+                    0 if allow_not => MGoal::And(vec![atom(r), MGoal::Not(Box::new(atom(r)))]),
+                    1 => {
+                        // a hypothesis on one conjunct only, before or after its sibling
+                        let mut v = vec![atom(r), MGoal::If(vec![hyp(r)], Box::new(atom(r)))];
+                        if r.chance(50) {
+                            v.swap(0, 1);
+                        }
+                        MGoal::And(v)
+                    }
+                    2 if allow_not => {
+                        let mut v = vec![MGoal::Not(Box::new(atom(r))), MGoal::If(vec![hyp(r)], Box::new(atom(r)))];
+                        if r.chance(50) {
+                            v.swap(0, 1);
+                        }
+                        MGoal::And(v)
+                    }
+                    _ => atom(r),
                 }
             }
         })
@@ -388,6 +426,17 @@ pub fn gen_goal(r: &mut Rng, p: &MProgram, cfg: &GoalCfg) -> (MGoal, Vec<usize>)
         } else {
             atoms.push(MGoal::Pred(mk_pred(r, &leaves)));
         }
+    }
+    // a conjunct may carry its own hypothesis: `G1, if (H) { G2 }` — H must be visible to G2 only
+    for a in atoms.iter_mut() {
+        if matches!(a, MGoal::Pred(_)) && r.chance(12) {
+            let h = mk_pred(r, &phs);
+            let inner = std::mem::replace(a, MGoal::And(vec![]));
+            *a = MGoal::If(vec![h], Box::new(inner));
+        }
+    }
+    if atoms.len() > 1 {
+        r.shuffle(&mut atoms);
     }
     let mut g = if atoms.len() == 1 { atoms.pop().unwrap() } else { MGoal::And(atoms) };
     for q in qs.into_iter().rev() {
